@@ -285,7 +285,7 @@ func rulePathCharset(r *Run) {
 		if !must {
 			continue
 		}
-		v, ok := interpPure(fn, int64(c), 0)
+		v, ok := interpPureP(p, fn, int64(c), 0)
 		if !ok {
 			r.undecided("isPath/charset", fn.Pos(), "isPath could not be evaluated for %q (it is no longer a pure character-class function)", c)
 			return
